@@ -59,6 +59,7 @@ def h_resume(idx):
         if idx < 3:
             I.assume(LT(t_old, S[idx]))
         system.dae.t = t_old
+        system.dae.kcount = 7          # accepted steps so far (decides which steps are stored when save_every > 1)
         tds.h = (pysym.SR(z3.RealVal(0)) if I.symbolic else np.float64(0.0))
         tds.solver = None
         g2 = dict(TDS.init_resume.__globals__); g2['logger'] = c06._Log()
@@ -67,6 +68,7 @@ def h_resume(idx):
         out = [('resuming keeps the grid invariant (no pending event or end time is passed)', c06.inv_after(tds, system, S, tds._switch_idx, t_old, 3)),
                ('resuming moves no event pointer: nothing is lost or repeated', tds._switch_idx == idx and len(fired) == 0),
                ('resuming makes progress: the time axis keeps increasing', LT(t_old, system.dae.t)),
+               ('resuming does not advance the step counter: the same steps of the grid are stored as in an uninterrupted run', system.dae.kcount == 7),
                ('the first step after resuming respects the fixed step size', IMPLIES(cfg.fixt, LE(tds.h, cfg.tstep)))]
         return out
     return h
@@ -188,6 +190,44 @@ def h_fix_view(I):
     return out
 
 
+def h_snapshot_state(I):
+    """save_ss / load_ss with the serialiser replaced by the identity: apart from re-attaching arrays, taking and loading a
+    snapshot changes nothing in the state of the routines (flags, pointers, step sizes, configuration)"""
+    import andes.utils.snapshot as SN
+    ss = cases.build([1, 2, 3], lines=[dict(bus1=1, bus2=2, idx='L1'), dict(bus1=2, bus2=3, idx='L2'), dict(bus1=1, bus2=3, idx='L3')],
+                     slacks=[dict(bus=1, idx='S')], pvs=[dict(bus=2, idx='G', p0=0.3)],
+                     pqs=[dict(bus=3, idx='D', p0=0.4, q0=0.1)], setup=False,
+                     extra=[('GENCLS', dict(bus=2, gen='G', idx='M2', M=6.0, D=1.0, xd1=0.3)), ('GENCLS', dict(bus=1, gen='S', idx='M1', M=8.0, D=1.0, xd1=0.25)),
+                            ('Toggle', dict(model='Line', dev='L3', t=0.05))])
+    ss.setup()
+    ss.PFlow.run()
+    ss.TDS.config.no_tqdm = 1
+    ss.TDS.config.tf = 0.04
+    ss.TDS.run()
+
+    def state():
+        out = {}
+        for rn, r in ss.routines.items():
+            for k, v in r.__dict__.items():
+                if isinstance(v, (bool, int, float, str, type(None), np.integer, np.floating)):
+                    out[(rn, k)] = v
+            out[(rn, 'config')] = dict(r.config.as_dict(refresh=True))
+        out[('dae', 't')] = float(ss.dae.t)
+        out[('dae', 'kcount')] = ss.dae.kcount
+        return out
+    before = state()
+    box = {}
+    save = pysym.rebind(SN.save_ss, dill=NS(dump=lambda system, f, recurse=True: box.update(system=system)))
+    load = pysym.rebind(SN.load_ss, dill=NS(load=lambda f: box['system']), import_pycode=lambda: None)
+    fake = NS(write=lambda b: None, read=lambda: b'')
+    save(fake, ss)
+    s2 = load(fake)
+    after = state()
+    diff = sorted(str(k) for k in before if k not in after or after[k] != before[k] and not (before[k] != before[k]))
+    return [('taking and loading a snapshot returns the system', s2 is ss),
+            ('taking and loading a snapshot leaves the state of every routine as it was (flags, pointers, step sizes, configuration)', not diff)]
+
+
 def job(spec):
     import logging
     logging.getLogger('andes').setLevel(60)
@@ -198,6 +238,8 @@ def job(spec):
         return H.run(f'TDS.init_resume from an exit state [pointer={arg}]', h_resume(arg), timeout_ms=20000, region=lambda v, c: c)
     if kind == 'split':
         return H.run('split vs unsplit run (fixed step 0.1, tf = 0.25, one event)', h_split_vs_unsplit, timeout_ms=30000, max_paths=3000, region=lambda v, c: c)
+    if kind == 'snap':
+        return H.run('save_ss / load_ss around an identity serialiser', h_snapshot_state, region=lambda v, c: c)
     if kind == 'fixview':
         return H.run('fix_view_arrays after detaching every array', h_fix_view, region=lambda v, c: c.split(', ')[-1] if ', ' in c else c)
     if kind == 'reset':
@@ -220,7 +262,7 @@ def main():
     ck.assume('time is a real number', 'the C06 inductive step (checked by C06) carries the invariant through the loop')
     ck.out('the dill serialisation itself and continuation in another process -- object-graph serialisation is not encodable (the repair step fix_view_arrays IS checked: arrays detached as unpickling leaves them)',
            'trajectory equality up to discretisation error (numerics)')
-    jobs = [('exit', k) for k in range(4)] + [('resume', k) for k in range(4)] + [('reset', 0), ('split', 0), ('fixview', 0)]
+    jobs = [('exit', k) for k in range(4)] + [('resume', k) for k in range(4)] + [('reset', 0), ('split', 0), ('fixview', 0), ('snap', 0)]
     res = core.pmap(job, jobs)
     ck.merge(res)
     ck.extra['states'] = ck.paths
